@@ -95,8 +95,9 @@ def main():
         if confirmed:
             dest = os.path.join(VERIF, "seeded", name)
             os.makedirs(dest, exist_ok=True)
-            shutil.copy(patch, os.path.join(dest, "patch.diff"))
-            shutil.copy(demo, os.path.join(dest, "demo.py"))
+            if os.path.abspath(args.seed_dir) != os.path.abspath(dest):    # re-evaluation of a stored seed
+                shutil.copy(patch, os.path.join(dest, "patch.diff"))
+                shutil.copy(demo, os.path.join(dest, "demo.py"))
             with open(meta_p) as f:
                 try:
                     meta = json.load(f)
